@@ -496,6 +496,8 @@ def run(report, index, tier):
                 r3.ok(construct, 'triaged: the pattern only requires the '
                       'backslash and escape letter that the preceding '
                       'lookup (R12.3 dict rule) already demands')
+    from .c06 import line_index_rule
+    line_index_rule(report, index, 'R12.4')
     report.not_decided += [
         'termination (the while-True loop of Lexer._token and ply\'s '
         'error recovery have no static bound in reach)',
